@@ -16,7 +16,7 @@ RULE = (
     "programs: seeded buffer-family functions (memref.copy on the data-mover core, linalg.generic on the compute core, on 3 L3 arguments and "
     "3 L1 allocs; pre-existing barriers; scf.for nesting <= 3, scf.if; trip counts 0..3) compiled with insert-sync-barrier "
     "(variant A: cores skip ops of other cores by the dispatch rule re-stated in /verif; variant B: followed by dispatch-regions and executed "
-    "literally; in an eighth of the A/B cases one operand is an arith.select of two local buffers; in a fifth of the cases tagged ops that every core executes read a local buffer; variants C / D: allocations placed late and explicit deallocs, compiled with the static-allocation slice of the snaxc pipeline "
+    "literally; in an eighth of the A/B cases one operand is an arith.select of two local buffers; in a fifth of the cases tagged ops that every core executes read a local buffer; in a fifth of the A/B cases buffers are handed on under a new name (picked by an scf.if, ping-pong buffers rotated through iter_args); streaming regions appear in any of the three dart stages (operation / schedule / access_pattern); variants C / D: allocations placed late and explicit deallocs, compiled with the static-allocation slice of the snaxc pipeline "
     "insert-sync-barrier,memref-to-snax,canonicalize,snax-allocate{mode=minimalloc},insert-sync-barrier [,dispatch-regions] and executed on "
     "address-indexed L1 cells, so that two buffers the allocator put at one address are one piece of memory). N in 2..4 cores run the function on the simulated cluster under K seeded schedules with stalls and burst sizes 1/2/whole. "
     "Online: barrier-epoch race monitor on every memory cell, barrier deadlock. Afterwards: final contents of all buffers and the inputs every "
